@@ -96,6 +96,7 @@ example : wd.sr "U†" * wd.sr "H" * wd.sr "U" = wd.sr "H_tilde" := C01_similari
 example : w2.sr "U†" * w2.sr "H" * w2.sr "U" = w2.sr "H_tilde" := C01_similarity w2_accepted (by norm_num)
 -- two blocks, `fully_diagonalize=[0]`, the two levels of the first block exactly `atol` apart
 example : wlist.sr "U†" * wlist.sr "H" * wlist.sr "U" = wlist.sr "H_tilde" := (C01_every_list_form_problem wlist_input (by norm_num)).1
+example : wall.sr "U†" * wall.sr "H" * wall.sr "U" = wall.sr "H_tilde" := (C01_every_list_form_problem wall_input (by norm_num)).1
 -- a chain of levels 0, 7, 14 under `atol = 10` in a fully diagonalised block: the ends are farther apart than `atol` and kept together all the same
 example : wchain.sr "U†" * wchain.sr "H" * wchain.sr "U" = wchain.sr "H_tilde" := (C01_chains_of_close_levels wchain_core (by norm_num)).1
 example : w1.sr "U†" * w1.sr "H" * w1.sr "U" = w1.sr "H_tilde" := C01_similarity w1_accepted (by norm_num)
